@@ -28,7 +28,7 @@ def main():
             rcs, viol, failed = [], [], []
             for prop in props:
                 p = subprocess.run([os.path.join(ROOT, 'bin', 'check'), prop, '--tier', 'quick', '--no-evidence'], capture_output=True,
-                                   text=True, cwd=ROOT, timeout=3600, env=dict(os.environ, PYVC_REPO=scratch))
+                                   text=True, cwd=ROOT, timeout=3600, env=dict(os.environ, PYVC_REPO=scratch, PYVC_BATTERY_EXCLUDE=name))
                 rcs.append(p.returncode)
                 viol += [ln for ln in p.stdout.splitlines() if ln.startswith('VIOLATION')]
                 failed += [ln[:400] for ln in p.stdout.splitlines() if ln.startswith(('failed obligation', 'undecided obligations'))]
